@@ -282,7 +282,10 @@ pub fn gen_forest(rng: &mut Rng, cfg: &DomCfg) -> Forest {
                 }
                 props.push((p.name.to_string(), v));
             } else {
-                let name = if rng.chance(80) {
+                let name = if !db().classes.contains_key(class.as_str()) && rng.chance(20) {
+                    // a name `Instance` itself declares, on a class the database does not know: an unknown property like any other
+                    rng.pick(&["Archivable", "archivable", "RobloxLocked", "SourceAssetId", "Tags", "DataCost", "Capabilities", "DefinesCapabilities"]).to_string()
+                } else if rng.chance(80) {
                     rng.pick(&UNKNOWN_PROPS).to_string()
                 } else {
                     let s = val::gen_utf8(rng);
